@@ -1,7 +1,8 @@
 (* C17, not property obligations: statements the faithful model of the UNCHANGED code violates, with
    witnesses by vm_compute.  The same inputs are replayed on the real Checkpointer by the harness
    (corpus stream of harness/db/verif_c17_test.go; monitor signature checkpoint-regress-late-expected). *)
-From SG Require Import Base.Prelude C20.SeqIdGen C20.SeqId C17.Checkpointer C17.CheckpointerProofs C17.C17_Properties.
+From SG Require Import Base.Prelude C20.SeqIdGen C20.SeqId C20.SeqIdCodec C17.Checkpointer C17.CheckpointerProofs
+  C17.Persist C17.PersistProofs C17.RegressProofs C17.C17_Properties.
 Open Scope N_scope.
 
 Definition regress_ops : list op :=
@@ -115,3 +116,92 @@ Qed.
 
 Example repaired_on_the_witness : guarded None (returns (run0 100 regress_ops)) = [mk 0 0 20].
 Proof. vm_compute. reflexivity. Qed.
+
+(* ====================================================================================================
+   Persistence / restart (Persist.v): why each clause of the peer contract [peer_ok] is there, and two
+   observations on the unchanged code.  All replayed on the real Checkpointer by the "world-corpus" stream.
+   ==================================================================================================== *)
+
+(* the arrival of a late sequence alone does not make the checkpoint regress (so the naive
+   "regress iff a lower sequence is added" is false; the exact statement is C17_regress_iff_late_expected) *)
+Definition late_ok_ops : list op :=
+  [Expect [mk 0 0 20]; Processed (mk 0 0 20); Tick; Expect [mk 0 0 5; mk 0 0 30]; Processed (mk 0 0 5);
+   Processed (mk 0 0 30); Tick].
+Lemma late_arrival_without_regress :
+  returns (run0 100 late_ok_ops) = [mk 0 0 20; mk 0 0 30] /\ ~ regresses (run0 100 late_ok_ops).
+Proof.
+  split; [vm_compute; reflexivity|]. intros Hr. apply regress_iff_late in Hr.
+  destruct Hr as (t1 & a & t2 & b & t3 & s1 & s2 & Hs & Ha & Hin & Hlt & Hb).
+  assert (Hret : forall sn s, In sn (run0 100 late_ok_ops) -> ret (s_out sn) = Some s -> s = mk 0 0 20 \/ s = mk 0 0 30).
+  { vm_compute. intros sn s H. repeat (destruct H as [H|H]; [subst sn; cbn; intros E; try discriminate E; inversion E; tauto|]). destruct H. }
+  assert (Ia : In a (run0 100 late_ok_ops)) by (rewrite Hs; apply in_or_app; right; left; reflexivity).
+  assert (Ib : In b (run0 100 late_ok_ops)).
+  { rewrite Hs; apply in_or_app; right; right; apply in_or_app; right; left; reflexivity. }
+  destruct (Hret a s1 Ia Ha) as [-> | ->], (Hret b s2 Ib Hb) as [-> | ->]; try (vm_compute in Hlt; discriminate Hlt).
+  (* s1 = 30, s2 = 20: 30 is returned last, nothing follows it *)
+  assert (Hlen : length (run0 100 late_ok_ops) = 7%nat) by (vm_compute; reflexivity).
+  assert (Hlast : forall pre x post, run0 100 late_ok_ops = pre ++ x :: post -> ret (s_out x) = Some (mk 0 0 30) -> post = []).
+  { vm_compute. intros pre x post H.
+    do 7 (destruct pre as [|? pre]; [inversion H; subst; cbn; intros E; try discriminate E; reflexivity|inversion H; subst; clear H; rename H2 into H]).
+    destruct pre; discriminate H. }
+  specialize (Hlast t1 a (t2 ++ b :: t3) Hs Ha). destruct t2; discriminate Hlast.
+Qed.
+
+(* FEED ORDER is needed: 5 is announced after 20 was stored and the process stops before 5 is handled *)
+Definition world_late_ops : list pop :=
+  [PRestart 1 false; PL (Expect [mk 0 0 20]); PL (Processed (mk 0 0 20)); PTick false false;
+   PL (Expect [mk 0 0 5]); PRestart 1 false].
+Lemma restart_skips_without_feed_order :
+  exists sn, last_opt (prun0 100 world_late_ops) = Some sn /\ ps_op sn = PRestart 1 false /\
+    m_last (w_mem (ps_w sn)) = mk 0 0 20 /\
+    In (1, mk 0 0 5) (g_E (ps_g sn)) /\ ~ In (1, mk 0 0 5) (g_P (ps_g sn)) /\
+    before (mk 0 0 5) (m_last (w_mem (ps_w sn))) = true.
+Proof.
+  eexists. split; [vm_compute; reflexivity|]. repeat split; try (vm_compute; tauto).
+  vm_compute. intros H. repeat (destruct H as [H|H]; [discriminate H|]). exact H.
+Qed.
+
+(* NO GAPS is needed: after the restart from 1 the peer announces 3 without re-announcing 2 *)
+Definition world_gap_ops : list pop :=
+  [PRestart 1 false; PL (Expect [mk 0 0 1; mk 0 0 2; mk 0 0 3]); PL (Processed (mk 0 0 1)); PTick false false;
+   PRestart 1 false; PL (Expect [mk 0 0 3]); PL (Processed (mk 0 0 3)); PTick false false; PRestart 1 false].
+Lemma restart_skips_when_peer_leaves_gaps :
+  exists sn, last_opt (prun0 100 world_gap_ops) = Some sn /\
+    m_last (w_mem (ps_w sn)) = mk 0 0 3 /\
+    In (1, mk 0 0 2) (g_E (ps_g sn)) /\ ~ In (1, mk 0 0 2) (g_P (ps_g sn)).
+Proof.
+  eexists. split; [vm_compute; reflexivity|]. repeat split; try (vm_compute; tauto).
+  vm_compute. intros H. repeat (destruct H as [H|H]; [discriminate H|]). exact H.
+Qed.
+
+(* PRINTABLE TOKENS are needed: SequenceID.String prints 5:7 as "7" (TriggeredBy is dropped once Seq has
+   reached it), and "7" is after 6:3.  The checkpoint text loses the position; no Sync Gateway feed emits
+   such a token (C20: [emitted]), so this is a limit of the statement, not a reachable defect *)
+Definition world_unprintable_ops : list pop :=
+  [PRestart 1 false; PL (Expect [mk 5 0 7; mk 6 0 3]); PL (Processed (mk 5 0 7)); PTick false false; PRestart 1 false].
+Lemma restart_skips_with_unprintable_token :
+  exists sn, last_opt (prun0 100 world_unprintable_ops) = Some sn /\
+    m_last (w_mem (ps_w sn)) = mk 0 0 7 /\
+    In (1, mk 6 0 3) (g_E (ps_g sn)) /\ ~ In (1, mk 6 0 3) (g_P (ps_g sn)) /\
+    before (mk 6 0 3) (mk 0 0 7) = true /\ canon (mk 5 0 7) <> mk 5 0 7.
+Proof.
+  eexists. split; [vm_compute; reflexivity|]. repeat split; try (vm_compute; tauto); try (vm_compute; discriminate).
+  vm_compute. intros H. repeat (destruct H as [H|H]; [discriminate H|]). exact H.
+Qed.
+
+(* OBSERVATION (liveness, not a violation of C17): when the remote checkpoint document disappears while its rev
+   id is remembered, the peer answers 404; SetSGR2CheckpointRequest.Response wraps it as "unexpected error
+   response: ...", which setRetry's strings.HasPrefix(err, "404") branch never sees: all ten attempts re-send
+   the same rev, the tick stores 6 locally only.  The failure clears the remembered rev, so the NEXT tick
+   re-creates the document.  The local path recognises 404 at once. *)
+Definition world_remote_gone_ops : list pop :=
+  [PRestart 1 false; PL (Expect [mk 0 0 4]); PL (Processed (mk 0 0 4)); PTick false false; PDelRemote;
+   PL (Expect [mk 0 0 6]); PL (Processed (mk 0 0 6)); PTick false false;
+   PL (Expect [mk 0 0 9]); PL (Processed (mk 0 0 9)); PTick false false].
+Example remote_404_not_recognised :
+  map (fun sn => (seq_of (w_loc (ps_w sn)), seq_of (w_rem (ps_w sn)), m_last (w_mem (ps_w sn)), m_rrev (w_mem (ps_w sn))))
+      (skipn 7 (prun0 100 world_remote_gone_ops)) =
+  [(Some (mk 0 0 6), None, mk 0 0 4, 0); (Some (mk 0 0 6), None, mk 0 0 4, 0); (Some (mk 0 0 6), None, mk 0 0 4, 0);
+   (Some (mk 0 0 9), Some (mk 0 0 9), mk 0 0 9, 1)] /\
+  (forall rev h sq, exists r, set_retry retry_attempts SLocal false None rev h sq = (Some (mkDoc r h sq), Some r)).
+Proof. split; [vm_compute; reflexivity|]. intros rev h sq. apply set_retry_local_ok. Qed.
